@@ -295,8 +295,8 @@ def _install_resolve_pre():
     def summ(a):
         return {"id": a.assignment_id, "chr": a.chr_id, "type": a.assignment_type.name,
                 "gtype": a.gene_assignment_type.name if hasattr(a.gene_assignment_type, "name") else str(a.gene_assignment_type),
-                "mm": bool(a.multimapper), "gene": a.gene_id, "iso": a.isoform_id, "start": a.start, "end": a.end,
-                "pen": a.penalty_score, "read": a.read_id}
+                "mm": bool(a.multimapper), "gene_list": sorted(a.genes), "iso": sorted(a.isoforms), "start": a.start, "end": a.end,
+                "pen": a.penalty_score, "read": a.read_id, "region": list(a.genomic_region)}
 
     def resolve(self, assignment_list):
         before = [summ(a) for a in assignment_list]
